@@ -21,7 +21,10 @@ def case(args):
     s = sp.src("src", paths)
     delay = ["sleep 0.0%d" % rng.randint(1, 5), None]
     rng.shuffle(delay)
-    prod = sp.proc(t3.Proc("prod", kind="cat", ins=[("a", [(s, "out")])], outs=[("o", "{i:a}.stream")], stream_outs=["o"], sleep=delay[0]))
+    # the producer writes in one piece, or in two pieces with a pause in between (the reader sees a short read meanwhile)
+    two = (i % 3 == 1)
+    prod = sp.proc(t3.Proc("prod", kind="cattok" if two else "cat", ins=[("a", [(s, "out")])], outs=[("o", "{i:a}.stream")], stream_outs=["o"], sleep=delay[0],
+                           pause="sleep 0.1" if two else None))
     chain = rng.random() < 0.3
     if chain:   # a chain of two streaming stages
         mid = sp.proc(t3.Proc("mid", kind="cat", ins=[("a", [(prod, "o")])], outs=[("o", "{i:a}.mid")], stream_outs=["o"]))
